@@ -67,6 +67,24 @@ def cond(node, params):
     err(node, "condition outside the command grammar")
 
 
+def lower_if(test, then, orelse, params):
+    """`if A and B` / `if A or B` / `if not A` are written out with the IR's single-condition SIf (conditions have no effects, so
+    evaluating the nested form is the short-circuit evaluation): A and B -> if A then (if B then T else E) else E, etc."""
+    if isinstance(test, ast.BoolOp) and isinstance(test.op, ast.And):
+        inner = then
+        for t in reversed(test.values[1:]):
+            inner = [lower_if(t, inner, orelse, params)]
+        return lower_if(test.values[0], inner, orelse, params)
+    if isinstance(test, ast.BoolOp) and isinstance(test.op, ast.Or):
+        inner = orelse
+        for t in reversed(test.values[1:]):
+            inner = [lower_if(t, then, inner, params)]
+        return lower_if(test.values[0], then, inner, params)
+    if isinstance(test, ast.UnaryOp) and isinstance(test.op, ast.Not):
+        return lower_if(test.operand, orelse, then, params)
+    return f"SIf {cond(test, params)} {coq_list(then, per_line=8)} {coq_list(orelse, per_line=8)}"
+
+
 def stmts(nodes, params, msgvar):
     out = []
     for n in nodes:
@@ -74,7 +92,7 @@ def stmts(nodes, params, msgvar):
             # `if TYPE_CHECKING: assert ...` carries no behaviour
             if isinstance(n.test, ast.Name) and n.test.id == "TYPE_CHECKING" and all(isinstance(x, ast.Assert) for x in n.body) and not n.orelse:
                 continue
-            out.append(f"SIf {cond(n.test, params)} {coq_list(stmts(n.body, params, msgvar), per_line=8)} {coq_list(stmts(n.orelse, params, msgvar), per_line=8)}")
+            out.append(lower_if(n.test, stmts(n.body, params, msgvar), stmts(n.orelse, params, msgvar), params))
         elif isinstance(n, ast.Assign) and len(n.targets) == 1 and isinstance(n.targets[0], ast.Attribute) \
                 and isinstance(n.targets[0].value, ast.Name) and n.targets[0].value.id == msgvar:
             out.append(f"SAssign {coq_string(n.targets[0].attr)} {expr(n.value, params)}")
